@@ -216,6 +216,9 @@ bool prop(Tape &t, Report &R) {
   R.classify("mode:NetModel");
   Inst in;
   in.n = t.choose(1, 15);
+  // length scale of the instance: coordinates in [0,100]*S (S = 1000: nets tens of thousands of units long)
+  float S = t.flip(1, 4) ? 1000.0f : 1.0f;
+  bool tinyWeights = t.flip(1, 5);
   int nn = t.choose(1, 20);
   bool twoPinOnly = t.flip(1, 3);
   bool allEqual = true, anyFrac = false, deg3 = false;
@@ -228,16 +231,17 @@ bool prop(Tape &t, Report &R) {
     for (int q = 0; q < deg; ++q) {
       if (t.flip(1, 4)) {
         nt.cells.push_back(-1);
-        nt.offs.push_back((float)t.real(0, 100));
+        nt.offs.push_back((float)t.real(0, 100) * S);
       } else {
         int c = t.choose(0, in.n - 1);
         nt.cells.push_back(c);
-        nt.offs.push_back((float)(t.choose(-12, 12)) * 0.25f);
+        nt.offs.push_back((float)(t.choose(-12, 12)) * 0.25f * S);
         touched[c] = 1;
       }
     }
     int wc = t.weighted({2, 3, 3});
     nt.weight = wc == 0 ? 1.0f : wc == 1 ? (float)t.choose(1, 32) * 0.25f : (float)t.real(0.25, 8.0);
+    if (tinyWeights) nt.weight *= 1.0f / 1024.0f;  // fractional weights far below 1
     if (firstW < 0) firstW = nt.weight;
     allEqual &= nt.weight == firstW;
     anyFrac |= nt.weight != std::floor(nt.weight);
@@ -249,23 +253,26 @@ bool prop(Tape &t, Report &R) {
     for (int c = 0; c < in.n; ++c) {
       NetD nt;
       nt.cells = {c, -1};
-      nt.offs = {0.0f, (float)t.real(0, 100)};
-      nt.weight = (float)t.real(0.25, 4.0);
+      nt.offs = {0.0f, (float)t.real(0, 100) * S};
+      nt.weight = (float)t.real(0.25, 4.0) * (tinyWeights ? 1.0f / 1024.0f : 1.0f);
       if (!touched[c] || t.flip(1, 3)) in.nets.push_back(nt);
     }
   }
   for (int c = 0; c < in.n; ++c) {
-    in.pl.push_back((float)t.real(0, 100));
+    in.pl.push_back((float)t.real(0, 100) * S);
     int tc = t.weighted({3, 1, 1});
-    in.target.push_back(tc == 0 ? (float)t.real(0, 100) : tc == 1 ? in.pl.back() : (float)t.real(-100, 200));
-    in.strength.push_back((float)t.real(50, 500));
+    in.target.push_back(tc == 0 ? (float)t.real(0, 100) * S : tc == 1 ? in.pl.back() : (float)t.real(-100, 200) * S);
+    in.strength.push_back((float)t.real(50, 500) * (tinyWeights ? 1.0f / 1024.0f : 1.0f));
   }
   in.prm.netModel = (NetModelOption)t.choose(0, 3);
-  in.prm.approximationDistance = (float)t.real(1, 20);
-  in.prm.penaltyCutoffDistance = (float)t.real(100, 300);
+  in.prm.approximationDistance = (float)t.real(1, 20) * S;
+  in.prm.penaltyCutoffDistance = (float)t.real(100, 300) * S;
   in.prm.tolerance = 1e-6f;
   in.prm.maxNbIterations = 1000;
   R.classify("netmodel:" + std::to_string((int)in.prm.netModel));
+  R.classify(S > 1 ? "length-scale:1000" : "length-scale:1");
+  if (tinyWeights) R.classify("weights:/1024");
+  const double range = 100.0 * S;
 
   NetModel base = build(in, 1.0f);
   std::vector<float> s0 = base.solveStar(in.prm), v0 = base.solve(in.pl, in.prm),
@@ -276,7 +283,7 @@ bool prop(Tape &t, Report &R) {
     return true;
   }
   // (1) dyadic factor: bitwise
-  int k = t.choose(-6, 6);
+  int k = t.flip(1, 3) ? t.choose(-24, 24) : t.choose(-6, 6);
   if (k == 0) k = 3;
   float f = std::ldexp(1.0f, k);
   {
@@ -302,7 +309,7 @@ bool prop(Tape &t, Report &R) {
     double dev = std::max({maxDiff(s0, s1), maxDiff(v0, v1), maxDiff(p0, p1)});
     // only judged on well-conditioned instances: use the penalised solve (always anchored) strictly,
     // the others when the dense model below says they are well conditioned
-    if (maxDiff(p0, p1) > 0.1) {
+    if (maxDiff(p0, p1) > 1e-3 * range) {
       std::ostringstream m2;
       m2 << "solveWithPenalty changes by " << maxDiff(p0, p1) << " when all weights and penalty strengths are multiplied by " << g;
       return R.fail(m2.str() + " " + in.json());
@@ -330,7 +337,7 @@ bool prop(Tape &t, Report &R) {
       }
     }
     double ratio;
-    std::string e = compareDense(d, s0, in.prm.tolerance, 100.0, ratio);
+    std::string e = compareDense(d, s0, in.prm.tolerance, range, ratio);
     if (e == "skip") R.classify("star:ill-conditioned-or-singular");
     else if (!e.empty()) return R.fail("solveStar: " + e + " " + in.json());
     else R.classify("star:compared-with-dense");
@@ -367,7 +374,7 @@ bool prop(Tape &t, Report &R) {
           d.b(i) += sgt * in.target[i];
         }
       double ratio;
-      std::string e = compareDense(d, withPen ? p0 : v0, in.prm.tolerance, 100.0, ratio);
+      std::string e = compareDense(d, withPen ? p0 : v0, in.prm.tolerance, range, ratio);
       if (e == "skip") R.classify("two-pin:ill-conditioned-or-singular");
       else if (!e.empty()) return R.fail(std::string(withPen ? "solveWithPenalty" : "solve") + " (2-pin nets): " + e + " " + in.json());
       else R.classify("two-pin:compared-with-dense");
